@@ -51,6 +51,15 @@ var (
 	outMu           sync.Mutex
 )
 
+// outDir is where replay files of this run go (VERIF_OUT redirects evidence and replays, used
+// when a check is pointed at a scratch copy of the repository).
+func outDir() string {
+	if v := os.Getenv("VERIF_OUT"); v != "" {
+		return v
+	}
+	return filepath.Join(verifDir, "out")
+}
+
 func say(format string, a ...interface{}) {
 	outMu.Lock()
 	fmt.Printf(format+"\n", a...)
@@ -121,6 +130,14 @@ func main() {
 		raceBin = buildWorker(true)
 	}
 	kf := loadFindings(filepath.Join(verifDir, "known_findings.txt"))
+	if !info.Race {
+		// Address-space limit for the workers (inherited): an allocation of gigabytes declared by
+		// a size field kills the worker at once (reported as a fatal violation after solo
+		// confirmation) instead of costing seconds of page zeroing per run. The race detector
+		// needs terabytes of address space, so race builds are not limited.
+		lim := uint64(2 << 30)
+		_ = syscall.Setrlimit(syscall.RLIMIT_AS, &syscall.Rlimit{Cur: lim, Max: lim})
+	}
 
 	if replay != "" {
 		os.Exit(doReplay(bin, raceBin, info, replay, tier, kf))
@@ -344,6 +361,7 @@ type lastRun struct {
 	camp string
 	idx  uint64
 	open bool
+	min  bool // the worker is minimising the violation of this run
 	t    time.Time
 }
 
@@ -384,6 +402,20 @@ func (ck *checker) runWorker(spec workerSpec, kvOut map[string]string) {
 			if n > 6 {
 				return
 			}
+		}
+		if !last.open && last.min {
+			// died (or stalled) while minimising a recoverable violation: keep the seed-based case
+			cs := core.Case{Prop: ck.id, Campaign: last.camp, Seed: ck.seed, Run: last.idx}
+			out, lanes, ended, _ := ck.soloRun(&cs, "", 3*ck.runTimeout, spec.race, spec.procs)
+			if ended == "returned" && out != nil && out.Viol != nil {
+				full := cs
+				full.Lanes = lanes
+				full.ReplayAll = true
+				ck.addViolation(&core.ReplayFile{Case: full, Violation: out.Viol, Digest: out.Digest, Desc: out.Desc, Note: "not minimised: a minimisation candidate killed the worker"})
+			}
+			spec.from = last.idx + 1
+			spec.fromCamp = last.camp
+			continue
 		}
 		if !last.open {
 			ck.mu.Lock()
@@ -492,6 +524,11 @@ func (ck *checker) runWorkerOnce(spec workerSpec, kvOut map[string]string, skip 
 			last.open = false
 			last.t = time.Now()
 			lmu.Unlock()
+		case 'm':
+			lmu.Lock()
+			last.min = true
+			last.t = time.Now()
+			lmu.Unlock()
 		case 'K':
 			var kvp [2]string
 			if json.Unmarshal([]byte(ln[2:]), &kvp) == nil {
@@ -504,6 +541,10 @@ func (ck *checker) runWorkerOnce(spec workerSpec, kvOut map[string]string, skip 
 			if err := json.Unmarshal([]byte(ln[2:]), &rf); err == nil {
 				ck.addViolation(&rf)
 			}
+			lmu.Lock()
+			last.min = false
+			last.t = time.Now()
+			lmu.Unlock()
 		case 'S':
 			var st core.Stats
 			if err := json.Unmarshal([]byte(ln[2:]), &st); err == nil {
@@ -904,13 +945,13 @@ func (ck *checker) finish(wall time.Duration) int {
 		sigs = append(sigs, s)
 	}
 	sort.Strings(sigs)
-	os.MkdirAll(filepath.Join(verifDir, "out", "replays"), 0o755)
+	os.MkdirAll(filepath.Join(outDir(), "replays"), 0o755)
 	nViol := 0
 	var knownSeen []string
 	for _, sig := range sigs {
 		rf := ck.viol[sig]
 		name := fmt.Sprintf("%s-%08x.json", ck.id, uint32(hash32(sig)))
-		path := filepath.Join(verifDir, "out", "replays", name)
+		path := filepath.Join(outDir(), "replays", name)
 		rf.Signature = sig
 		if err := core.WriteReplay(path, rf); err != nil {
 			say("MACHINERY-ERROR cannot write replay %s: %v", path, err)
@@ -1081,8 +1122,12 @@ func (ck *checker) writeEvidence(wall time.Duration, nViol int, knownSeen []stri
 		"violations":  nViol,
 	}
 	b, _ := json.MarshalIndent(ev, "", " ")
-	os.MkdirAll(filepath.Join(verifDir, "evidence"), 0o755)
-	p := filepath.Join(verifDir, "evidence", ck.id+".json")
+	evDir := filepath.Join(verifDir, "evidence")
+	if v := os.Getenv("VERIF_OUT"); v != "" {
+		evDir = filepath.Join(v, "evidence")
+	}
+	os.MkdirAll(evDir, 0o755)
+	p := filepath.Join(evDir, ck.id+".json")
 	if err := os.WriteFile(p, append(b, '\n'), 0o644); err != nil {
 		say("MACHINERY-ERROR cannot write evidence: %v", err)
 		machineryFailed = true
